@@ -11,6 +11,7 @@ func init() {
 	commands["storage-run"] = cmdStorageRun
 	commands["storage-random"] = cmdStorageRandom
 	commands["array-run"] = cmdArrayRun
+	commands["map-run"] = cmdMapRun
 }
 
 func main() {
